@@ -104,7 +104,7 @@ func verifUDP(k int, nKeys int, nAddrs int, symDst bool) {
 	entries := make([]*CipherEntry, n)
 	for i := 0; i < n; i++ {
 		c := 0
-		if !symDst {
+		if !symDst && !verifUDPOneCipher {
 			c = verifChoice("cipher", 4)
 		}
 		if i > 0 {
@@ -264,6 +264,16 @@ func verifUDP(k int, nKeys int, nAddrs int, symDst bool) {
 }
 
 func VH_C03_upstream() { verifUDP(2, 2, 2, false) }
+
+var verifUDPOneCipher bool
+
+// three datagrams (multi-step sequences: accepted / refused / accepted again ...) over a reduced
+// alphabet: one key, one cipher, two client addresses
+func VH_C03_upstream_three() {
+	verifUDPOneCipher = true
+	defer func() { verifUDPOneCipher = false }()
+	verifUDP(3, 1, 2, false)
+}
 
 func VH_C03_upstream_T() { verifUDP(3, 1, 2, false) }
 
